@@ -12,9 +12,9 @@
 //@ outside: compactify / generation renumbering written back to the trace (needs TraceHandler with rich states); RecursiveStreamCursor over ValueAggregate iterables
 //@ harness: name=c01_stream_generation_bounded playback=1 props=C01 panicfree=1 cap=900 cost=60 sym="generation: any u32 >= STREAM_MAX_SIZE; source previous/current: any" bound="one addition into an empty stream"
 //@ harness: name=c01_stream_generation_small playback=1 trivial=1 props=C01,C13 cap=900 cost=60 sym="none: generations 0 and 2" bound="one addition"
-//@ harness: name=c12_stream_iteration_order_natural playback=1 props=C12,C13 cap=1800 cost=200 sym="tags of 5 values: any u8" bound="previous generations {0,2}, current {1}, one new value; insertion order: natural"
-//@ harness: name=c12_stream_iteration_order_reversed playback=1 props=C12,C13 cap=1800 cost=200 sym="tags of 5 values: any u8" bound="previous generations {0,2}, current {1}, one new value; insertion order: reversed"
-//@ harness: name=c12_stream_iteration_order_scrambled playback=1 props=C12,C13 cap=1800 cost=200 sym="tags of 5 values: any u8" bound="previous generations {0,2}, current {1}, one new value; insertion order: scrambled"
+//@ harness: name=c12_stream_iteration_order_natural playback=1 props=C12,C13 cap=1800 cost=200 mem=19 sym="tags of 5 values: any u8" bound="previous generations {0,2}, current {1}, one new value; insertion order: natural"
+//@ harness: name=c12_stream_iteration_order_reversed playback=1 props=C12,C13 cap=1800 cost=200 mem=19 sym="tags of 5 values: any u8" bound="previous generations {0,2}, current {1}, one new value; insertion order: reversed"
+//@ harness: name=c12_stream_iteration_order_scrambled playback=1 props=C12,C13 cap=1800 cost=200 mem=19 sym="tags of 5 values: any u8" bound="previous generations {0,2}, current {1}, one new value; insertion order: scrambled"
 //@ harness: name=c13_cursor_dense_then_previous playback=1 props=C13,C09,C12 cap=1800 cost=200 sym="payload tags of 3 values: any u8" bound="dense matrices; later value to previous data"
 //@ harness: name=c13_cursor_sparse_current_then_current playback=1 props=C13,C09,C12 cap=1800 cost=200 sym="payload tags of 3 values: any u8" bound="sparse current-data matrix (generation 2 only); later value to current data (the F10 shape)"
 //@ harness: name=c13_cursor_sparse_previous_then_previous playback=1 props=C13,C09,C12 cap=1800 cost=200 sym="payload tags of 3 values: any u8" bound="sparse previous-data matrix; later value to previous data"
